@@ -249,6 +249,22 @@ def letters(order='wroi', over='set(flags)'):
     return [(A, FENCE_DEF, FENCE_SET % (order, over) + FENCE_DEF), (A, FENCE_COERCE, "    succ = fence_set(succ)\n    pred = fence_set(pred)\n")]
 
 
+# ---- round 8: contextlib.suppress, generator helpers consumed by unpacking ---------------------------------------------------------
+IMPORT_ANCHOR = "from collections import ChainMap\n"
+CIL_FIELDS = "    imm_7_6 = (imm >> 4) & 0b11\n    imm_5 = (imm >> 3) & 0b1\n    imm_4_2 = imm & 0b111\n"
+SPLIT_BITS = ("def split_bits(value, *widths):\n    for width in widths:\n        yield value & ((1 << width) - 1)\n        value >>= width\n\n\n")
+
+
+def suppress_conv(classes='BaseException'):
+    return [(A, IMPORT_ANCHOR, "import contextlib\n" + IMPORT_ANCHOR),
+            (A, INT_TRY_FULL, "    with contextlib.suppress(" + classes + "):\n        reg = int(reg, base=0)\n")]
+
+
+def gen_split(call="split_bits(imm, 3, 1, 2)", stmt=None):
+    stmt = stmt or "    imm_4_2, imm_5, imm_7_6 = " + call + "\n"
+    return [(A, CIA_DEF, SPLIT_BITS + CIA_DEF), (A, CIL_FIELDS, stmt)]
+
+
 PRESERVING = [
     ('p-enc-get-none', ENC, [(A, TABLE_TRY, GET_NONE)]),
     ('p-enc-membership', ENC, [(A, TABLE_TRY, MEMBER)]),
@@ -304,6 +320,11 @@ PRESERVING = [
     ('p-enc-constant-table-index', ENC, const_table()),
     ('p-enc-fence-letter-sets', ['C01', 'C06'], letters()),
     ('p-enc-binding-helper', ENC, [(A, ADD_BINDING, "def alu_op(*, funct3, funct7):\n    return partial(r_type, opcode=0b0110011, funct3=funct3, funct7=funct7)\n\n\nADD        = alu_op(funct3=0b000, funct7=0b0000000)")]),
+    ('p-enc-suppress-conversion', ENC + ['C13'], suppress_conv()),
+    ('p-enc-suppress-conversion-classes', ENC, [(A, IMPORT_ANCHOR, "from contextlib import suppress\n" + IMPORT_ANCHOR),
+                                                (A, INT_TRY_FULL, "    with suppress(TypeError, ValueError):\n        reg = int(reg, base=0)\n")]),
+    ('p-enc-generator-split-bits', ENC, gen_split()),
+    ('p-enc-generator-split-bits-list', ENC, gen_split("list(split_bits(imm, 3, 1, 2))")),
     ('p-enc-log-call', ENC, [(A, ITYPE_GUARD, "    log.debug('i-type immediate %s', imm)\n" + ITYPE_GUARD, 0)]),
 ]
 
@@ -359,6 +380,13 @@ BREAKING = [
     ('c01-fence-letter-order', ['C01'], letters('iorw')),
     ('c01-fence-letters-repeated', ['C01'], letters('wroi', 'flags')),
     ('c01-binding-helper-opcode', ['C01'], [(A, ADD_BINDING, "def alu_op(*, funct3, funct7):\n    return partial(r_type, opcode=0b0010011, funct3=funct3, funct7=funct7)\n\n\nADD        = alu_op(funct3=0b000, funct7=0b0000000)")]),
+    # the table lookup, not the conversion, is wrapped: a spelling that is no key is no longer refused
+    ('c06-suppress-lookup', ['C01', 'C06'], [(A, IMPORT_ANCHOR, "import contextlib\n" + IMPORT_ANCHOR),
+                                             (A, TABLE_TRY, "    with contextlib.suppress(KeyError):\n        reg = REGISTERS[reg]\n")]),
+    # int operands raise TypeError, which is not suppressed: ecall / fence (pre-bound rd=0, rs1=0) can never be encoded
+    ('c01-suppress-valueerror', ['C01'], suppress_conv('ValueError')),
+    ('c02-generator-split-bits-widths', ['C02'], gen_split("split_bits(imm, 3, 2, 1)")),
+    ('c02-generator-split-bits-msb-first', ['C02'], gen_split(stmt="    imm_7_6, imm_5, imm_4_2 = split_bits(imm, 3, 1, 2)\n")),
     ('c02-closure-message-value', ['C02', 'C06'], [(A, CNOT, CNOT_MSG.replace('fields[field] == value', 'fields[field] != value'))]),
 ]
 
@@ -371,6 +399,8 @@ BREAKING += [
 ]
 
 UNDECIDED = [
+    # a generator kept in a variable runs when it is consumed, not where it is created
+    ('u-enc-generator-stored', ['C02'], gen_split(stmt="    fields = split_bits(imm, 3, 1, 2)\n    imm_4_2, imm_5, imm_7_6 = fields\n")),
     # a table entry whose bit is the exclusive-or of two index bits has no single-bit provenance
     ('u-enc-constant-table-xor', ['C02'], const_table('(imm_6 ^ imm_4)')),
     # successor unguarded below: (pred << 4) | succ with a negative low part is not a sum of fields, no closed form in the domain
